@@ -137,16 +137,19 @@ static int read_code(LHALH1Decoder *decoder, uint16_t *result)
 void harness_read(void)
 {
 	INPUT(u32, pos);
-	u8 out[MAXREAD];
+	/* the output buffer is an object of exactly the size the decoder type DECLARES (max_read): lha_decoder_new sizes the real
+	 * buffer from that field, so what must hold is "one read writes at most max_read bytes", whatever the value is */
+	u8 *out = malloc(lha_lh1_decoder.max_read);
 	size_t n;
 
-	CHECK(lha_lh1_decoder.max_read == MAXREAD, "harness buffer is exactly max_read bytes");
+	ASSUME(out != NULL);
+	CHECK(lha_lh1_decoder.max_read >= 1 && lha_lh1_decoder.max_read <= MAXREAD, "harness models output buffers of up to 4096 bytes");
 	CHECK(NUM_CODES == 314, "real constants");
 	ASSUME(pos < RING_BUFFER_SIZE);
 	init_offset_table(&dec);
 	dec.ringbuf_pos = pos;
 	n = lha_lh1_read(&dec, out);
-	CHECK(n <= MAXREAD, "lh1: read returns at most max_read");
+	CHECK(n <= lha_lh1_decoder.max_read, "lh1: read returns at most max_read");
 	CHECK(n <= 60, "lh1: at most 60 bytes per command");
 	CHECK(dec.ringbuf_pos < RING_BUFFER_SIZE, "lh1: write position stays inside the ring");
 	if (n == 60) WITNESS("longest copy");
